@@ -24,6 +24,8 @@ void set_max_input_length(uint32_t length) {
 }
 
 uint32_t get_max_input_length() {
+  ADA_VERIF_LIMIT_READ();
+  ADA_VERIF_COUNT(C_LIMIT_READ);
   return max_input_length_.load(std::memory_order_relaxed);
 }
 
@@ -321,8 +323,10 @@ bool can_parse(std::string_view input, const std::string_view* base_input) {
   if (base_input == nullptr) {
     if (const auto r = try_can_parse_absolute_fast(input)) {
       if (!*r) {
+        ADA_VERIF_COUNT(C_CANPARSE_FAST_FALSE);
         return false;
       }
+      ADA_VERIF_COUNT(C_CANPARSE_FAST_TRUE);
       // size <= max/3 => normalized href cannot exceed max (3x expansion).
       // Check this first: default max is ~4GB so almost all URLs return true.
       const uint32_t max_length = ada::get_max_input_length();
@@ -336,6 +340,7 @@ bool can_parse(std::string_view input, const std::string_view* base_input) {
                                                                     nullptr)
           .is_valid;
     }
+    ADA_VERIF_COUNT(C_CANPARSE_FAST_NULLOPT);
   }
 
   const uint32_t max_length = ada::get_max_input_length();
@@ -353,6 +358,7 @@ bool can_parse(std::string_view input, const std::string_view* base_input) {
   const bool size_safe = combined <= static_cast<size_t>(max_length) / 3;
 
   if (size_safe) {
+    ADA_VERIF_COUNT(C_CANPARSE_SIZE_SAFE);
     // Validation-only: no buffer build, host still fully checked.
     ada::url_aggregator base_agg;
     ada::url_aggregator* base_ptr = nullptr;
@@ -370,6 +376,7 @@ bool can_parse(std::string_view input, const std::string_view* base_input) {
   }
 
   // Near the limit: full parse so post-normalization length matches parse().
+  ADA_VERIF_COUNT(C_CANPARSE_FULL);
   if (base_input == nullptr) {
     return ada::parser::parse_url_impl<ada::url_aggregator, true>(input,
                                                                   nullptr)
